@@ -489,13 +489,26 @@ func TestC16(t *testing.T) {
 			{Ver: 3, Level: 2, Input: "CVSS:3.1/AV:N/AC:L/PR:N/UI:N/S:U/C:H/I:H/A:H/E:X/RL:BAD"},
 			{Ver: 2, Level: 0, Input: "AV:L/AC:H/Au:M/C:N/I:N/A:P"},
 		}
+		// besides the short templates, three different ones beyond 4 KiB and one beyond 64 KiB
+		// (size thresholds of readers, buffers and whatever is keyed on large inputs)
+		hammerTpls := append([]string(nil), c16Templates...)
+		for k, unit := range []string{"x", "ab\n", "é", "0123456789"} {
+			n := 4200
+			if k == 3 {
+				n = int(pick(9000, 70000))
+			}
+			hammerTpls = append(hammerTpls, fmt.Sprintf("{{.Version}}|%d|", k)+strings.Repeat(unit, n/len(unit))+"{{.Vector}}")
+		}
 		kinds := []string{"export", "export", "report", "decode"}
 		for round := 0; round < int(pick(6, 60)) && nviol == 0; round++ {
 			w := workload{Procs: 16, Pool: pool}
 			kind := kinds[(round+shard)%len(kinds)]
 			for g := 0; g < 16; g++ {
 				o := wop{Kind: "hammer-op", Obs: kind, Idx: (g + round) % len(pool), Count: int(pick(250, 2500)),
-					Lang: c16Langs[(g/2+round)%len(c16Langs)], Tpl: c16Templates[(g+round+shard)%len(c16Templates)]}
+					Lang: c16Langs[(g/2+round)%len(c16Langs)], Tpl: hammerTpls[(g+round+shard)%len(hammerTpls)]}
+				if round%3 == 2 { // every third round: only the large templates
+					o.Tpl = hammerTpls[len(c16Templates)+(g+shard)%4]
+				}
 				w.Goroutines = append(w.Goroutines, []wop{o})
 			}
 			evals++
